@@ -245,4 +245,311 @@ Section Run.
         destruct (step e (h_conn s) x) as [c1 o1]. inversion H; subst. apply R_q; auto.
     Qed.
   End Rule.
+
+  (* ---------- part 2: what one handshake message does to a client / to a server-side connection ---------- *)
+
+  Notation adopts := (adopts SIG verify).
+  Notation connects := (connects SIG pub sign verify dh kdf ser_shello ser_chal).
+  Notation signed_of := (signed_of SIG pub).
+
+  Lemma fail_oracle_parse code : o_parse (fail_oracle code) =? 0 = false.
+  Proof. pose proof (fail_oracle_nonzero code). lia. Qed.
+
+  Lemma client_hs_cases (s : hstate) ty m c1 o1 :
+    c_server (h_conn s) = false -> hs_step s ty m = (c1, o1) ->
+    (exists rp p sg, ty = SERVER_HELLO /\ m = MServerHello rp p sg /\ verify (check_key s rp) sg p = true /\
+       note s ty m (oracle_of s ty m) c1 o1 = s <| h_conn := c1 |> <| h_adopted := Some (rp, p, sg) |> /\
+       c_key c1 = Some (kdf (dh (h_priv s) (sp_pub p)) (sp_salt p)) /\ c_token c1 = sp_token p /\
+       c_server c1 = false) \/
+    (qrel (h_conn s) c1 /\ note s ty m (oracle_of s ty m) c1 o1 = s <| h_conn := c1 |> /\
+     forall rp p sg, ~ adopts (s, ty, m) rp p sg).
+  Proof.
+    intros Sv H.
+    assert (NoAd : forall c', qrel (h_conn s) c' -> c1 = c' ->
+              existsb (fun x => match x with OHandlerConnect => true | _ => false end) o1 = false ->
+              (o_parse (oracle_of s ty m) =? 0) = false \/ ty <> SERVER_HELLO ->
+              (forall rp p sg, ~ adopts (s, ty, m) rp p sg) ->
+              qrel (h_conn s) c1 /\ note s ty m (oracle_of s ty m) c1 o1 = s <| h_conn := c1 |> /\
+              forall rp p sg, ~ adopts (s, ty, m) rp p sg).
+    { intros c' Q -> HC PZ NA. split; [exact Q|]. split; [|exact NA].
+      unfold Handshake.note, has_connect. rewrite HC.
+      assert (Sv' : c_server c' = false) by (destruct Q as (_ & -> & _); exact Sv). rewrite Sv'. cbn [andb negb].
+      destruct PZ as [PZ|PZ]; [rewrite PZ, Bool.andb_false_r; reflexivity|].
+      destruct ty; try contradiction; reflexivity. }
+    unfold Handshake.hs_step, Handshake.oracle_of, recv_handshake in H. rewrite Sv in H.
+    destruct ty.
+    all: try (right; destruct m; inversion H; subst;
+              (apply (NoAd (h_conn s)); [apply qrel_refl|reflexivity|reflexivity|right; discriminate|
+                intros ? ? ? (X & _); discriminate X])).
+    (* SERVER_HELLO *)
+    destruct m as [cp v pd|rp p sg|t|code].
+    - right. cbn in H. inversion H; subst.
+      apply (NoAd (h_conn s)); [apply qrel_refl|reflexivity|reflexivity|left; unfold Handshake.oracle_of; rewrite Sv; reflexivity|intros rp p sg (_ & X & _); discriminate X].
+    - destruct (verify (check_key s rp) sg p) eqn:V; cbn in H.
+      + left. exists rp, p, sg. inversion H; subst. repeat split; auto.
+        unfold Handshake.note, Handshake.oracle_of, has_connect. rewrite Sv, V. cbn. rewrite Sv.
+        destruct (c_conn_cb _); reflexivity.
+      + right. inversion H; subst.
+        apply (NoAd ((h_conn s) <| c_status := DISCONNECTED |>)); [repeat split; auto; cbn; discriminate|reflexivity|reflexivity| |].
+        * left. unfold Handshake.oracle_of. rewrite Sv, V. reflexivity.
+        * intros rp0 p0 sg0 (_ & X & _ & Y). inversion X; subst. congruence.
+    - right. cbn in H. inversion H; subst.
+      apply (NoAd (h_conn s)); [apply qrel_refl|reflexivity|reflexivity|left; unfold Handshake.oracle_of; rewrite Sv; reflexivity|intros rp p sg (_ & X & _); discriminate X].
+    - right. pose proof (fail_oracle_parse code) as PZ.
+      destruct (o_parse (fail_oracle code) =? 6); [|rewrite PZ in H; cbn in H]; inversion H; subst.
+      + apply (NoAd ((h_conn s) <| c_status := DISCONNECTED |>)); [repeat split; auto; cbn; discriminate|reflexivity|reflexivity|left; exact PZ|intros rp p sg (_ & X & _); discriminate X].
+      + apply (NoAd (h_conn s)); [apply qrel_refl|reflexivity|reflexivity|left; exact PZ|intros rp p sg (_ & X & _); discriminate X].
+  Qed.
+
+  Lemma server_hs_cases (s : hstate) ty m c1 o1 :
+    c_server (h_conn s) = true -> h_temp s = TSelf \/ h_temp s = TNone -> hs_step s ty m = (c1, o1) ->
+    (* (A) a client hello is answered: token, key, CONNECTING, the signed hello is queued *)
+    (exists cpub ver, ty = CLIENT_HELLO /\ m = MClientHello cpub ver true /\
+       let p := {| sp_pub := pub (h_priv s); sp_salt := fst (hd (0, 0) (h_rand s));
+                   sp_token := snd (hd (0, 0) (h_rand s)) |} in
+       signed_of (s, ty, m) = [(cpub, p)] /\ connects (s, ty, m) = false /\
+       c1 = send_type ((h_conn s) <| c_token := sp_token p |> <| c_key := Some (kdf (dh (h_priv s) cpub) (sp_salt p)) |>
+                         <| c_status := CONNECTING |>)
+              SERVER_HELLO (ser_shello (pub (h_root s)) p (sign (h_root s) p)) RNone INone /\
+       note s ty m (oracle_of s ty m) c1 o1 = s <| h_conn := c1 |> <| h_rand := tl (h_rand s) |>) \/
+    (* (B) the challenge response carries the token of this connection: connect *)
+    (ty = CHALLENGE_RESP /\ m = MChallenge (c_token (h_conn s)) /\ h_temp s = TSelf /\
+       signed_of (s, ty, m) = [] /\ connects (s, ty, m) = true /\ o1 = [OHandlerConnect] /\
+       c1 = (h_conn s) <| c_status := CONNECTED |> /\
+       note s ty m (oracle_of s ty m) c1 o1 = s <| h_conn := c1 |> <| h_temp := TNone |>) \/
+    (* (C) anything else *)
+    (qrel (h_conn s) c1 /\ signed_of (s, ty, m) = [] /\ connects (s, ty, m) = false /\
+       note s ty m (oracle_of s ty m) c1 o1 = s <| h_conn := c1 |>).
+  Proof.
+    intros Sv Tmp H.
+    assert (CC : connects (s, ty, m) = has_connect o1) by (unfold HsNet.connects; rewrite H; reflexivity).
+    assert (Nop : c1 = h_conn s -> has_connect o1 = false -> signed_of (s, ty, m) = [] ->
+              (o_parse (oracle_of s ty m) =? 0) && o_version_ok (oracle_of s ty m) = false \/ ty <> CLIENT_HELLO ->
+              qrel (h_conn s) c1 /\ signed_of (s, ty, m) = [] /\ connects (s, ty, m) = false /\
+              note s ty m (oracle_of s ty m) c1 o1 = s <| h_conn := c1 |>).
+    { intros -> HC SO PZ. split; [apply qrel_refl|]. split; [exact SO|]. split; [rewrite CC; exact HC|].
+      unfold Handshake.note. rewrite HC, Sv. cbn [negb andb].
+      destruct PZ as [PZ|PZ].
+      - rewrite <- Bool.andb_assoc, PZ, Bool.andb_false_r. reflexivity.
+      - destruct ty; try contradiction; reflexivity. }
+    unfold Handshake.hs_step, Handshake.oracle_of, recv_handshake in H. rewrite Sv in H.
+    destruct ty.
+    all: try (right; right; destruct m; inversion H; subst;
+              (apply Nop; [reflexivity|reflexivity|reflexivity|right; discriminate])).
+    - (* CLIENT_HELLO *)
+      destruct m as [cp v pd|rp p sg|t|code].
+      + destruct pd; cbn [negb] in H.
+        * destruct (hd (0, 0) (h_rand s)) as [salt tok] eqn:Hd. cbn in H.
+          destruct (v =? h_version s) eqn:Ver; cbn in H.
+          -- left. exists cp, v. inversion H; subst. cbv zeta. rewrite CC.
+             unfold HsNet.signed_of, Handshake.note, Handshake.oracle_of, has_connect.
+             rewrite Sv, Ver, Hd. cbn. rewrite Sv. cbn. repeat split.
+          -- right; right. inversion H; subst. apply Nop; try reflexivity.
+             ++ unfold HsNet.signed_of. rewrite Sv, Ver. reflexivity.
+             ++ left. unfold Handshake.oracle_of. rewrite Sv, Hd. cbn. rewrite Ver. reflexivity.
+        * right; right. cbn in H. inversion H; subst. apply Nop; try reflexivity.
+          left. unfold Handshake.oracle_of. rewrite Sv. reflexivity.
+      + right; right. cbn in H. inversion H; subst. apply Nop; try reflexivity.
+        left. unfold Handshake.oracle_of. rewrite Sv. reflexivity.
+      + right; right. cbn in H. inversion H; subst. apply Nop; try reflexivity.
+        left. unfold Handshake.oracle_of. rewrite Sv. reflexivity.
+      + right; right. pose proof (fail_oracle_parse code) as PZ. rewrite PZ in H. cbn in H. inversion H; subst.
+        apply Nop; try reflexivity. left. unfold Handshake.oracle_of. rewrite PZ. reflexivity.
+    - (* CHALLENGE_RESP *)
+      destruct m as [cp v pd|rp p sg|t|code].
+      + right; right. cbn in H. inversion H; subst. apply Nop; try reflexivity. right; discriminate.
+      + right; right. cbn in H. inversion H; subst. apply Nop; try reflexivity. right; discriminate.
+      + cbn in H. unfold temp_token in H.
+        destruct Tmp as [Tm|Tm]; rewrite Tm in H.
+        * destruct (c_token (h_conn s) =? t) eqn:Et.
+          -- right; left. assert (t = c_token (h_conn s)) as -> by lia. inversion H; subst.
+             repeat split; auto. unfold Handshake.note, has_connect. cbn. rewrite Sv. cbn. reflexivity.
+          -- right; right. inversion H; subst. apply Nop; try reflexivity. right; discriminate.
+        * right; right. inversion H; subst. apply Nop; try reflexivity. right; discriminate.
+      + right; right. pose proof (fail_oracle_parse code) as PZ. rewrite PZ in H. cbn in H. inversion H; subst.
+        apply Nop; try reflexivity. right; discriminate.
+  Qed.
+
+  (* ---------- part 3: the two endpoint invariants ---------- *)
+  Notation client_key := (client_key dh kdf).
+  Notation server_key := (server_key dh kdf).
+
+  Lemma app_snoc_split {A} (g g1 g2 : list A) x y : g ++ [x] = g1 ++ y :: g2 ->
+    (g2 = [] /\ g1 = g /\ y = x) \/ exists g2', g2 = g2' ++ [x] /\ g = g1 ++ y :: g2'.
+  Proof.
+    destruct g2 as [|z g2' _] using rev_ind; intros H.
+    - left. apply app_inj_tail in H as [-> ->]. auto.
+    - right. exists g2'. change (g1 ++ y :: g2' ++ [z]) with (g1 ++ (y :: g2') ++ [z]) in H.
+      rewrite app_assoc in H. apply app_inj_tail in H as [-> ->]. auto.
+  Qed.
+
+  Section Invariants.
+    Hypothesis verify_sign : forall sk s m, verify (pub sk) s m = true <-> s = sign sk m.
+    Variables (a b root : Z) (akeys : list Z).
+    Hypothesis root_secret : ~ In root akeys.
+
+    (* ----- the client ----- *)
+    Definition client_consts (s : hstate) : Prop :=
+      c_server (h_conn s) = false /\ h_priv s = a /\ h_pinned s = Some (pub root).
+    Definition hello_of (p : sh_payload) : hmsg := MServerHello (pub root) p (sign root p).
+    Definition PmA (G : list sh_payload) (m : hmsg) : Prop := attacker_hello SIG sign akeys (map hello_of G) m.
+
+    (* G: the payloads the genuine server has signed so far *)
+    Definition RA (G : list sh_payload) (s : hstate) (g : list hentry) : Prop :=
+      client_consts s /\
+      (forall s1 ty m, In (s1, ty, m) g -> client_consts s1) /\
+      (forall en rp p sg, In en g -> adopts en rp p sg -> sg = sign root p /\ In p G) /\
+      match h_adopted s with
+      | None => c_key (h_conn s) = None /\ c_status (h_conn s) <> CONNECTED /\
+                (forall en rp p sg, In en g -> ~ adopts en rp p sg)
+      | Some (rp, p, sg) => (exists en, In en g /\ adopts en rp p sg) /\
+                            c_key (h_conn s) = Some (client_key a p) /\ c_token (h_conn s) = sp_token p
+      end.
+
+    Lemma RA_mono G G' s g : incl G G' -> RA G s g -> RA G' s g.
+    Proof.
+      intros HI (C & CE & AD & AK). split; [exact C|]. split; [exact CE|]. split; [|exact AK].
+      intros en rp p sg Hin Ha. destruct (AD _ _ _ _ Hin Ha). split; auto.
+    Qed.
+
+    Lemma RA_q G (s : hstate) g c' : qrel (h_conn s) c' -> RA G s g -> RA G (s <| h_conn := c' |>) g.
+    Proof.
+      intros (Qk & Qs & Qt & Qc) ((Sv & Pr & Pin) & CE & AD & AK).
+      split; [unfold client_consts; cbn; repeat split; congruence|]. split; [exact CE|]. split; [exact AD|].
+      cbn. destruct (h_adopted s) as [[[rp p] sg]|].
+      - destruct AK as (X & K & T). split; [exact X|]. split; congruence.
+      - destruct AK as (K & St & X). split; [congruence|]. split; [|exact X]. intros Y. apply St. auto.
+    Qed.
+
+    (* appending a message that is not an adoption *)
+    Lemma RA_ext G (s s0 : hstate) g ty m : client_consts s0 -> (forall rp p sg, ~ adopts (s0, ty, m) rp p sg) ->
+      RA G s g -> RA G s (g ++ [(s0, ty, m)]).
+    Proof.
+      intros C0 NA (C & CE & AD & AK). split; [exact C|]. split; [|split].
+      - intros s1 ty1 m1 Hin. apply in_app_or in Hin as [Hin|[Hin|[]]]; [eapply CE; eauto|congruence].
+      - intros en rp p sg Hin Ha. apply in_app_or in Hin as [Hin|[<-|[]]]; [eapply AD; eauto|destruct (NA _ _ _ Ha)].
+      - destruct (h_adopted s) as [[[rp p] sg]|].
+        + destruct AK as ((en & Hin & Ha) & K & T). split; auto. exists en. split; auto. apply in_or_app; auto.
+        + destruct AK as (K & St & X). repeat split; auto.
+          intros en rp p sg Hin Ha. apply in_app_or in Hin as [Hin|[<-|[]]]; [eapply X; eauto|destruct (NA _ _ _ Ha)].
+    Qed.
+
+    Lemma RA_hs G (s : hstate) g ty hm c1 o1 : is_hs ty = true -> PmA G hm -> RA G s g ->
+      hs_step s ty hm = (c1, o1) -> RA G (note s ty hm (oracle_of s ty hm) c1 o1) (g ++ [(s, ty, hm)]).
+    Proof.
+      intros _ HP HR St. pose proof HR as ((Sv & Pr & Pin) & CE & AD & AK).
+      destruct (client_hs_cases _ _ _ _ _ Sv St) as [(rp & p & sg & -> & -> & V & Nt & K & T & Sv1)|(Q & Nt & NA)]; rewrite Nt.
+      - assert (Sg : sg = sign root p).
+        { unfold check_key in V. rewrite Pin in V. apply verify_sign. exact V. }
+        assert (InG : In p G).
+        { destruct (HP root Sg) as [X|(rp' & X)]; [contradiction|].
+          apply in_map_iff in X as (p1 & E1 & I1). unfold hello_of in E1. congruence. }
+        assert (Ad : adopts (s, SERVER_HELLO, MServerHello rp p sg) rp p sg) by (repeat split; auto).
+        split; [unfold client_consts; cbn; repeat split; auto|]. split; [|split].
+        + intros s1 ty1 m1 Hin. apply in_app_or in Hin as [Hin|[Hin|[]]]; [eapply CE; eauto|].
+          inversion Hin; subst. repeat split; auto.
+        + intros en rp0 p0 sg0 Hin Ha. apply in_app_or in Hin as [Hin|[<-|[]]]; [eapply AD; eauto|].
+          destruct Ha as (_ & E & _). assert (p0 = p /\ sg0 = sg) as [-> ->] by (split; congruence). auto.
+        + cbn. split; [|split].
+          * eexists; split; [apply in_or_app; right; left; reflexivity|exact Ad].
+          * rewrite K, Pr. reflexivity.
+          * exact T.
+      - apply RA_ext; [repeat split; auto|exact NA|]. apply RA_q; auto.
+    Qed.
+
+    Theorem RA_step e G (s : hstate) g x s' o :
+      (forall d m, hev_dgram x = Some d -> msg_in SIG parse d m -> PmA G m) ->
+      RA G s g -> hstep e s x = (s', o) -> RA G s' (g ++ ev_log s x).
+    Proof. apply (hstep_R (RA G) (PmA G) (RA_q G) (RA_hs G)). Qed.
+
+    (* ----- the server-side connection ----- *)
+    Definition server_consts (s : hstate) : Prop :=
+      c_server (h_conn s) = true /\ h_priv s = b /\ h_root s = root /\ (h_temp s = TSelf \/ h_temp s = TNone).
+    Definition slog (g : list hentry) : list (Z * sh_payload) := flat_map signed_of g.
+    (* key and token are those of the hello signed last *)
+    Definition keyrel (s : hstate) (g : list hentry) : Prop :=
+      match last (map Some (slog g)) None with
+      | None => c_key (h_conn s) = None
+      | Some (cpub, p) => c_key (h_conn s) = Some (server_key b cpub p) /\ c_token (h_conn s) = sp_token p /\
+                          sp_pub p = pub b
+      end.
+    Definition RB (s : hstate) (g : list hentry) : Prop :=
+      server_consts s /\ keyrel s g /\
+      (forall g1 s1 ty m g2, g = g1 ++ (s1, ty, m) :: g2 ->
+         server_consts s1 /\ keyrel s1 g1 /\
+         (connects (s1, ty, m) = true ->
+            ty = CHALLENGE_RESP /\ m = MChallenge (c_token (h_conn s1)) /\ h_temp s1 = TSelf)) /\
+      (c_status (h_conn s) = CONNECTED ->
+         exists s1 m, In (s1, CHALLENGE_RESP, m) g /\ connects (s1, CHALLENGE_RESP, m) = true /\
+                      c_key (h_conn s1) = c_key (h_conn s) /\ c_token (h_conn s1) = c_token (h_conn s)) /\
+      (h_temp s = TSelf -> forall en, In en g -> connects en = false).
+
+    Lemma slog_snoc g en : slog (g ++ [en]) = slog g ++ signed_of en.
+    Proof. unfold slog. rewrite flat_map_app. cbn. rewrite app_nil_r. reflexivity. Qed.
+
+    Lemma keyrel_q (s : hstate) g c' : qrel (h_conn s) c' -> keyrel s g -> keyrel (s <| h_conn := c' |>) g.
+    Proof.
+      intros (Qk & Qs & Qt & Qc). unfold keyrel. cbn. destruct (last _ _) as [[cpub p]|]; [|congruence].
+      intros (K & T & P). repeat split; congruence.
+    Qed.
+
+    Lemma RB_q (s : hstate) g c' : qrel (h_conn s) c' -> RB s g -> RB (s <| h_conn := c' |>) g.
+    Proof.
+      intros Q ((Sv & Pr & Rt & Tm) & KR & Hist & Cn & NC). pose proof Q as (Qk & Qs & Qt & Qc).
+      split; [|split; [|split; [|split]]].
+      - unfold server_consts. cbn. repeat split; auto. congruence.
+      - apply keyrel_q; auto.
+      - exact Hist.
+      - cbn. intros St. destruct (Cn (Qc St)) as (s1 & m & I1 & C1 & K1 & T1). exists s1, m. repeat split; auto; congruence.
+      - exact NC.
+    Qed.
+
+    (* appending a message that neither signs nor connects *)
+    Lemma RB_ext (s : hstate) s0 g ty m : server_consts s0 -> keyrel s0 g ->
+      signed_of (s0, ty, m) = [] -> connects (s0, ty, m) = false -> RB s g -> RB s (g ++ [(s0, ty, m)]).
+    Proof.
+      intros C0 K0 SO CO (C & KR & Hist & Cn & NC).
+      split; [exact C|]. split; [|split; [|split]].
+      - unfold keyrel in *. rewrite slog_snoc, SO, app_nil_r. exact KR.
+      - intros g1 s1 ty1 m1 g2 E. apply app_snoc_split in E as [(-> & -> & E)|(g2' & -> & ->)].
+        + inversion E; subst. split; [exact C0|]. split; [exact K0|]. intros X. congruence.
+        + eapply Hist. reflexivity.
+      - intros St. destruct (Cn St) as (s1 & m1 & I1 & R1). exists s1, m1. split; [apply in_or_app; auto|exact R1].
+      - intros Tm en Hin. apply in_app_or in Hin as [Hin|[<-|[]]]; [apply NC; auto|exact CO].
+    Qed.
+
+    Lemma RB_hs (s : hstate) g ty hm c1 o1 : is_hs ty = true -> True -> RB s g ->
+      hs_step s ty hm = (c1, o1) -> RB (note s ty hm (oracle_of s ty hm) c1 o1) (g ++ [(s, ty, hm)]).
+    Proof.
+      intros _ _ HR St. pose proof HR as (C & KR & Hist & Cn & NC). pose proof C as (Sv & Pr & Rt & Tm).
+      destruct (server_hs_cases _ _ _ _ _ Sv Tm St) as
+        [(cpub & ver & -> & -> & SO & CO & E1 & Nt)|[(-> & -> & Ts & SO & CO & -> & E1 & Nt)|(Q & SO & CO & Nt)]];
+        rewrite Nt.
+      - (* a signed hello *)
+        cbv zeta in SO, E1. set (p := {| sp_pub := pub (h_priv s); sp_salt := fst (hd (0, 0) (h_rand s));
+                                         sp_token := snd (hd (0, 0) (h_rand s)) |}) in *.
+        split; [|split; [|split; [|split]]].
+        + unfold server_consts. cbn. rewrite E1. cbn. repeat split; auto.
+        + unfold keyrel. rewrite slog_snoc, SO, olast_app_one. cbn. rewrite E1. cbn. rewrite Pr. repeat split.
+        + intros g1 s1 ty1 m1 g2 E. apply app_snoc_split in E as [(-> & -> & E)|(g2' & -> & ->)].
+          * inversion E; subst. split; [exact C|]. split; [exact KR|]. intros X. congruence.
+          * eapply Hist. reflexivity.
+        + cbn. rewrite E1. cbn. discriminate.
+        + cbn. intros Ts en Hin. apply in_app_or in Hin as [Hin|[<-|[]]]; [apply NC; auto|exact CO].
+      - (* connect *)
+        split; [|split; [|split; [|split]]].
+        + unfold server_consts. cbn. rewrite E1. cbn. repeat split; auto.
+        + unfold keyrel in *. rewrite slog_snoc, SO, app_nil_r. cbn. rewrite E1. cbn. exact KR.
+        + intros g1 s1 ty1 m1 g2 E. apply app_snoc_split in E as [(-> & -> & E)|(g2' & -> & ->)].
+          * inversion E; subst. split; [exact C|]. split; [exact KR|]. intros _. auto.
+          * eapply Hist. reflexivity.
+        + intros _. exists s, (MChallenge (c_token (h_conn s))). split; [apply in_or_app; right; left; reflexivity|].
+          split; [exact CO|]. cbn. rewrite E1. cbn. auto.
+        + cbn. discriminate.
+      - apply RB_ext; auto. apply RB_q; auto.
+    Qed.
+
+    Theorem RB_step e (s : hstate) g x s' o : RB s g -> hstep e s x = (s', o) -> RB s' (g ++ ev_log s x).
+    Proof. intros HR H. eapply (hstep_R RB (fun _ => True) RB_q RB_hs); eauto. Qed.
+  End Invariants.
 End Run.
